@@ -1067,8 +1067,73 @@ impl_wrapper!(impl<T: TS> TS for std::cell::Cell<T>);
 impl_wrapper!(impl<T: TS> TS for std::cell::RefCell<T>);
 impl_wrapper!(impl<T: TS> TS for std::sync::Mutex<T>);
 impl_wrapper!(impl<T: TS> TS for std::sync::RwLock<T>);
-impl_wrapper!(impl<T: TS + ?Sized> TS for std::sync::Weak<T>);
-impl_wrapper!(impl<T: TS> TS for std::marker::PhantomData<T>);
+
+// serde serializes a `Weak<T>` like an `Option<T>`: `null` if the value has been dropped
+impl<T: TS + ?Sized> TS for std::sync::Weak<T> {
+    type WithoutGenerics = Self;
+    type OptionInnerType = Self;
+
+    fn name() -> String {
+        format!("{} | null", <T as crate::TS>::name())
+    }
+
+    fn inline() -> String {
+        format!("{} | null", <T as crate::TS>::inline())
+    }
+
+    fn visit_dependencies(v: &mut impl TypeVisitor)
+    where
+        Self: 'static,
+    {
+        <T as crate::TS>::visit_dependencies(v);
+    }
+
+    fn visit_generics(v: &mut impl TypeVisitor)
+    where
+        Self: 'static,
+    {
+        <T as crate::TS>::visit_generics(v);
+        v.visit::<T>();
+    }
+
+    fn decl() -> String {
+        panic!("wrapper type cannot be declared")
+    }
+
+    fn decl_concrete() -> String {
+        panic!("wrapper type cannot be declared")
+    }
+
+    fn inline_flattened() -> String {
+        panic!("{} cannot be flattened", <Self as crate::TS>::name())
+    }
+}
+
+// serde serializes `PhantomData<T>` as a unit struct (`null`), whatever `T` is
+impl<T: ?Sized> TS for std::marker::PhantomData<T> {
+    type WithoutGenerics = Self;
+    type OptionInnerType = Self;
+
+    fn name() -> String {
+        "null".to_owned()
+    }
+
+    fn inline() -> String {
+        "null".to_owned()
+    }
+
+    fn decl() -> String {
+        panic!("wrapper type cannot be declared")
+    }
+
+    fn decl_concrete() -> String {
+        panic!("wrapper type cannot be declared")
+    }
+
+    fn inline_flattened() -> String {
+        panic!("{} cannot be flattened", <Self as crate::TS>::name())
+    }
+}
 
 impl_tuples!(T1, T2, T3, T4, T5, T6, T7, T8, T9, T10);
 
